@@ -88,6 +88,15 @@ Theorem C07_reduce_stops_at_first_failure : forall rs E d cur next body pre v po
 Proof. exact reduce_stops_at_first_failure. Qed.
 Print Assumptions C07_reduce_stops_at_first_failure.
 
+(** reduce's nesting bound (the repair of the stack exhaustion by accumulated nesting): an accumulator
+    more than 1000 containers deep ends the loop with a value error *)
+Theorem C07_reduce_stops_at_deep_accumulator : forall rs E d cur next body pre v post seed lg a lg1 a1 lg2,
+  rtrace rs E d cur next body pre seed lg a lg1 -> S_ rs E d cur next body a v lg1 = (ROk (inr a1), lg2) ->
+  nested_too_deep a1 = true ->
+  reduce_loop rs E d cur next body (pre ++ v :: post) seed lg = (ROk (VErr EValue), lg2).
+Proof. exact reduce_stops_at_deep_accumulator. Qed.
+Print Assumptions C07_reduce_stops_at_deep_accumulator.
+
 (** the body sees the caller's environment with only the loop variable (re)bound *)
 Theorem C07_macro_scope : forall E x v,
   let E' := bind_param E x v in
